@@ -56,6 +56,14 @@ theorem options_unmarshal_no_panic (defs : Defs) (cap n : Nat) (bs : Bytes) :
     optionsUnmarshal defs cap n bs ≠ .error .panic :=
   OptionCodec.unmarshalLoop_no_panic defs cap n 0 0 bs
 
+/-- Tie of the retry loop to the source: the shape of the retry branch of `(*Message).decode`, regenerated from
+the AST on every run — the new capacity is a multiple ≥ 2 of the old one, capacity 0 is replaced by a positive
+value, and the capacity is not capped.  `newCap_gt` (hence the definition of `decodeRetry`) is proved from exactly
+these generated facts, so a change of the loop's shape breaks the termination proof by name. -/
+theorem retry_shape :
+    Generated.PoolRetry.retryCapLimit = none ∧ 2 ≤ Generated.PoolRetry.retryFactor ∧ 0 < Generated.PoolRetry.retryZeroCap := by
+  decide
+
 /-- The two facts the termination measure `len(data) − cap` of the pooled retry loop rests on: a decoder
 reports `ErrOptionsTooSmall` only while the capacity is below the input length, and the retried capacity
 is strictly larger.  (`decodeRetry` is accepted by Lean's termination checker because of them.) -/
@@ -234,6 +242,7 @@ open CoapVerif.Props.C02
 #print axioms tcp_decodeHeader_no_panic
 #print axioms tcp_decode_no_panic
 #print axioms options_unmarshal_no_panic
+#print axioms retry_shape
 #print axioms retry_measure
 #print axioms retry_resolves
 #print axioms retry_result_eq
